@@ -253,55 +253,55 @@ package mq
 //@   requires 0 <= i
 //@   assigns data[i:i+1]
 //@   ensures result == 1
-//@   ensures i + 1 <= len(data) ==> data[i] == byte(v)
+//@   ensures i + 1 <= len(data) ==> data[i] == byte(v)   #C02
 
 //@ func (wbool).fill
 //@   requires 0 <= i
 //@   assigns data[i:i+1]
 //@   ensures result == 1
-//@   ensures i + 1 <= len(data) ==> data[i] == (v ? 1 : 0)
+//@   ensures i + 1 <= len(data) ==> data[i] == (v ? 1 : 0)   #C02
 
 //@ func (wbool).fillProp
 //@   requires 0 <= i
 //@   assigns data[i:i+(v ? 2 : 0)]
 //@   ensures result == (v ? 2 : 0)
-//@   ensures v && i + 2 <= len(data) ==> data[i] == byte(id) && data[i+1] == 1
+//@   ensures v && i + 2 <= len(data) ==> data[i] == byte(id) && data[i+1] == 1   #C02
 
 //@ func (wuint16).fill
 //@   requires 0 <= i
 //@   assigns data[i:i+2]
 //@   ensures result == 2
-//@   ensures i + 2 <= len(data) ==> wuint16(specU16(data[i], data[i+1])) == v
+//@   ensures i + 2 <= len(data) ==> wuint16(specU16(data[i], data[i+1])) == v   #C02
 
 //@ func (wuint16).fillProp
 //@   requires 0 <= i
 //@   assigns data[i:i+(v == 0 ? 0 : 3)]
 //@   ensures result == (v == 0 ? 0 : 3)
-//@   ensures v != 0 && i + 3 <= len(data) ==> data[i] == byte(id) && wuint16(specU16(data[i+1], data[i+2])) == v
+//@   ensures v != 0 && i + 3 <= len(data) ==> data[i] == byte(id) && wuint16(specU16(data[i+1], data[i+2])) == v   #C02
 
 //@ func (wuint32).fill
 //@   requires 0 <= i
 //@   assigns data[i:i+4]
 //@   ensures result == 4
-//@   ensures i + 4 <= len(data) ==> wuint32(specU32(data[i], data[i+1], data[i+2], data[i+3])) == v
+//@   ensures i + 4 <= len(data) ==> wuint32(specU32(data[i], data[i+1], data[i+2], data[i+3])) == v   #C02
 
 //@ func (wuint32).fillProp
 //@   requires 0 <= i
 //@   assigns data[i:i+(v == 0 ? 0 : 5)]
 //@   ensures result == (v == 0 ? 0 : 5)
-//@   ensures v != 0 && i + 5 <= len(data) ==> data[i] == byte(id) && wuint32(specU32(data[i+1], data[i+2], data[i+3], data[i+4])) == v
+//@   ensures v != 0 && i + 5 <= len(data) ==> data[i] == byte(id) && wuint32(specU32(data[i+1], data[i+2], data[i+3], data[i+4])) == v   #C02
 
 //@ func (vbint).fillProp
 //@   requires 0 <= i
 //@   assigns data[i:i+(v == 0 ? 0 : 1 + specVbWidth(uint(v)))]
 //@   ensures result == (v == 0 ? 0 : 1 + specVbWidth(uint(v)))
-//@   ensures v != 0 && i + 1 <= len(data) ==> data[i] == byte(id)
+//@   ensures v != 0 && i + 1 <= len(data) ==> data[i] == byte(id)   #C02
 
 //@ func (bindata).fill
 //@   requires 0 <= i
 //@   assigns data[i:i+2+len(v)]
 //@   ensures result == 2 + len(v)
-//@   ensures i + 2 + len(v) <= len(data) ==> wuint16(specU16(data[i], data[i+1])) == wuint16(len(v))
+//@   ensures i + 2 + len(v) <= len(data) ==> wuint16(specU16(data[i], data[i+1])) == wuint16(len(v))   #C02
 //@   requires disjoint(v, data)                                                                   #C02
 //@   ensures forall k in 0..len(v): i + 2 + len(v) <= len(data) ==> data[i+2+k] == v[k]           #C02
 
@@ -309,7 +309,7 @@ package mq
 //@   requires 0 <= i
 //@   assigns data[i:i+(len(v) == 0 ? 0 : 3 + len(v))]
 //@   ensures result == (len(v) == 0 ? 0 : 3 + len(v))
-//@   ensures len(v) != 0 && i + 3 + len(v) <= len(data) ==> data[i] == byte(id) && wuint16(specU16(data[i+1], data[i+2])) == wuint16(len(v))
+//@   ensures len(v) != 0 && i + 3 + len(v) <= len(data) ==> data[i] == byte(id) && wuint16(specU16(data[i+1], data[i+2])) == wuint16(len(v))   #C02
 //@   requires disjoint(v, data)                                                                   #C02
 //@   ensures forall k in 0..len(v): len(v) != 0 && i + 3 + len(v) <= len(data) ==> data[i+3+k] == v[k]   #C02
 
